@@ -6,8 +6,18 @@ namespace Fadl
 set_option linter.unusedSimpArgs false
 
 /-- a function of elements that respects refinement -/
-def FnLe (f f' : Val → Res) : Prop := ∀ v v', VLe v v' → RLe (f v) (f' v')
-def FnLe2 (f f' : Val → Val → Res) : Prop := ∀ a a' v v', VLe a a' → VLe v v' → RLe (f a v) (f' a' v')
+def FnLe (f f' : Val → Res) : Prop := ∀ v v', VLe v v' → VLe v' v' → RLe (f v) (f' v')
+def FnLe2 (f f' : Val → Val → Res) : Prop :=
+  ∀ a a' v v', VLe a a' → VLe a' a' → VLe v v' → VLe v' v' → RLe (f a v) (f' a' v')
+
+theorem VLeL.wf_tail {b : Val} {bs : List Val} (h : VLeL (b :: bs) (b :: bs)) : VLeL bs bs := by
+  rw [VLeL_cons] at h; exact h.2
+theorem VLeL.wf_head {b : Val} {bs : List Val} (h : VLeL (b :: bs) (b :: bs)) (hb : ∀ e, b ≠ .poison e) : VLe b b := by
+  rw [VLeL_cons] at h; exact VLeE.of_ne_poison h.1 hb
+theorem VLeS.wf_tail {b : Val} {bs : List Val} (h : VLeS (b :: bs) (b :: bs)) : VLeS bs bs := by
+  simp only [VLeS] at h; exact h.2
+theorem VLeS.wf_head {b : Val} {bs : List Val} (h : VLeS (b :: bs) (b :: bs)) : VLe b b := by
+  simp only [VLeS] at h; exact h.1
 
 theorem forceAll_mono : ∀ {vs vs' : List Val}, VLeL vs vs' → RLeS (forceAll vs) (forceAll vs')
   | [], vs', h => by rw [VLeL_nil_left] at h; subst h; intro o ho; exact ⟨o, ho, by simp [forceAll] at ho; subst ho; simp [VLeS]⟩
@@ -143,15 +153,15 @@ theorem seqOp1Lz_mono (n : String) {vs vs' : List Val} (h : VLeL vs vs') : RLe (
       simp only [hf, hf', bind, Except.bind] at ho ⊢
       exact seqOp1_mono n hxx out ho
 
-theorem selL_mono {f f' : Val → Res} (hf : FnLe f f') : ∀ {vs vs' : List Val}, VLeL vs vs' →
+theorem selL_mono {f f' : Val → Res} (hf : FnLe f f') : ∀ {vs vs' : List Val}, VLeL vs vs' → VLeL vs' vs' →
     VLeL (vs.map (fun v => lazyElem (force v >>= f))) (vs'.map (fun v => lazyElem (force v >>= f')))
-  | [], vs', h => by rw [VLeL_nil_left] at h; subst h; simp [VLeL]
-  | v :: vs, vs', h => by
+  | [], vs', h, _ => by rw [VLeL_nil_left] at h; subst h; simp [VLeL]
+  | v :: vs, vs', h, hw' => by
     rw [VLeL_cons_left] at h
     obtain ⟨b, bs, rfl, h1, h2⟩ := h
     simp only [List.map]
     rw [VLeL_cons]
-    refine ⟨?_, selL_mono hf h2⟩
+    refine ⟨?_, selL_mono hf h2 hw'.wf_tail⟩
     cases v with
     | poison e => simp [force, lazyElem, bind, Except.bind, VLeE]
     | _ =>
@@ -162,15 +172,15 @@ theorem selL_mono {f f' : Val → Res} (hf : FnLe f f') : ∀ {vs vs' : List Val
         cases hfv : f _ with
         | error e => simp [lazyElem, VLeE]
         | ok y =>
-          obtain ⟨y', hy', hyy⟩ := hf _ b hvb y hfv
+          obtain ⟨y', hy', hyy⟩ := hf _ b hvb (hw'.wf_head hvb.not_poison_right) y hfv
           rw [hy']
           simp only [lazyElem]
           exact VLeE_of_VLe hyy)
 
-theorem whereLz_mono {f f' : Val → Res} (hf : FnLe f f') : ∀ {vs vs' : List Val}, VLeL vs vs' →
+theorem whereLz_mono {f f' : Val → Res} (hf : FnLe f f') : ∀ {vs vs' : List Val}, VLeL vs vs' → VLeL vs' vs' →
     RLeL (whereLz f vs) (whereLz f' vs')
-  | [], vs', h => by rw [VLeL_nil_left] at h; subst h; intro o ho; simp [whereLz] at ho; subst ho; exact ⟨[], rfl, by simp [VLeL]⟩
-  | v :: vs, vs', h => by
+  | [], vs', h, _ => by rw [VLeL_nil_left] at h; subst h; intro o ho; simp [whereLz] at ho; subst ho; exact ⟨[], rfl, by simp [VLeL]⟩
+  | v :: vs, vs', h, hw' => by
     rw [VLeL_cons_left] at h
     obtain ⟨b, bs, rfl, h1, h2⟩ := h
     intro out ho
@@ -186,11 +196,11 @@ theorem whereLz_mono {f f' : Val → Res} (hf : FnLe f f') : ∀ {vs vs' : List 
       cases hp : f v with
       | error e => simp [hp, bind, Except.bind] at ho
       | ok p =>
-        obtain ⟨p', hp', hpp⟩ := hf v b hvb p hp
+        obtain ⟨p', hp', hpp⟩ := hf v b hvb (hw'.wf_head hvb.not_poison_right) p hp
         cases hr : whereLz f vs with
         | error e => simp [hp, hr, bind, Except.bind] at ho
         | ok rest =>
-          obtain ⟨rest', hr', hrr⟩ := whereLz_mono hf h2 rest hr
+          obtain ⟨rest', hr', hrr⟩ := whereLz_mono hf h2 hw'.wf_tail rest hr
           simp only [hp, hp', hr, hr', bind, Except.bind, pure, Except.pure, Except.ok.injEq, ← truthy_mono hpp] at ho ⊢
           subst ho
           by_cases hb : truthy p
@@ -208,10 +218,10 @@ theorem asSeq_mono {r r' : Val} (h : VLe r r') (inner : List Val) (hi : asSeq r 
     exact ⟨vs', rfl, hv⟩
   | _ => simp [asSeq] at hi
 
-theorem manyLz_mono {f f' : Val → Res} (hf : FnLe f f') : ∀ {vs vs' : List Val}, VLeL vs vs' →
+theorem manyLz_mono {f f' : Val → Res} (hf : FnLe f f') : ∀ {vs vs' : List Val}, VLeL vs vs' → VLeL vs' vs' →
     RLeL (manyLz f vs) (manyLz f' vs')
-  | [], vs', h => by rw [VLeL_nil_left] at h; subst h; intro o ho; simp [manyLz] at ho; subst ho; exact ⟨[], rfl, by simp [VLeL]⟩
-  | v :: vs, vs', h => by
+  | [], vs', h, _ => by rw [VLeL_nil_left] at h; subst h; intro o ho; simp [manyLz] at ho; subst ho; exact ⟨[], rfl, by simp [VLeL]⟩
+  | v :: vs, vs', h, hw' => by
     rw [VLeL_cons_left] at h
     obtain ⟨b, bs, rfl, h1, h2⟩ := h
     intro out ho
@@ -227,7 +237,7 @@ theorem manyLz_mono {f f' : Val → Res} (hf : FnLe f f') : ∀ {vs vs' : List V
       cases hp : f v with
       | error e => simp [hp, bind, Except.bind] at ho
       | ok p =>
-        obtain ⟨p', hp', hpp⟩ := hf v b hvb p hp
+        obtain ⟨p', hp', hpp⟩ := hf v b hvb (hw'.wf_head hvb.not_poison_right) p hp
         cases hs : asSeq p with
         | error e => simp [hp, hs, bind, Except.bind] at ho
         | ok inner =>
@@ -235,26 +245,27 @@ theorem manyLz_mono {f f' : Val → Res} (hf : FnLe f f') : ∀ {vs vs' : List V
           cases hr : manyLz f vs with
           | error e => simp [hp, hs, hr, bind, Except.bind] at ho
           | ok rest =>
-            obtain ⟨rest', hr', hrr⟩ := manyLz_mono hf h2 rest hr
+            obtain ⟨rest', hr', hrr⟩ := manyLz_mono hf h2 hw'.wf_tail rest hr
             simp only [hp, hp', hs, hs', hr, hr', bind, Except.bind, pure, Except.pure, Except.ok.injEq] at ho ⊢
             subst ho
             exact ⟨_, rfl, VLeL.append hii hrr⟩
 
-theorem seqOp2Lz_mono (n : String) {f f' : Val → Res} (hf : FnLe f f') {vs vs' : List Val} (h : VLeL vs vs') :
+theorem seqOp2Lz_mono (n : String) {f f' : Val → Res} (hf : FnLe f f') {vs vs' : List Val} (h : VLeL vs vs')
+    (hw' : VLeL vs' vs') :
     RLe (seqOp2Lz n f vs) (seqOp2Lz n f' vs') := by
   intro out ho
   unfold seqOp2Lz at ho ⊢
   by_cases h1 : n = "Select"
   · simp only [h1, if_true, Except.ok.injEq] at ho ⊢
     subst ho
-    exact ⟨_, rfl, by simp only [VLe]; exact selL_mono hf h⟩
+    exact ⟨_, rfl, by simp only [VLe]; exact selL_mono hf h hw'⟩
   · simp only [h1, if_false] at ho ⊢
     by_cases h2 : n = "Where"
     · simp only [h2, if_true] at ho ⊢
       cases hw : whereLz f vs with
       | error e => simp [hw, Except.map] at ho
       | ok r =>
-        obtain ⟨r', hr', hrr⟩ := whereLz_mono hf h r hw
+        obtain ⟨r', hr', hrr⟩ := whereLz_mono hf h hw' r hw
         simp only [hw, hr', Except.map, Except.ok.injEq] at ho ⊢
         subst ho
         exact ⟨_, rfl, by simpa [VLe] using hrr⟩
@@ -264,24 +275,26 @@ theorem seqOp2Lz_mono (n : String) {f f' : Val → Res} (hf : FnLe f f') {vs vs'
         cases hw : manyLz f vs with
         | error e => simp [hw, Except.map] at ho
         | ok r =>
-          obtain ⟨r', hr', hrr⟩ := manyLz_mono hf h r hw
+          obtain ⟨r', hr', hrr⟩ := manyLz_mono hf h hw' r hw
           simp only [hw, hr', Except.map, Except.ok.injEq] at ho ⊢
           subst ho
           exact ⟨_, rfl, by simpa [VLe] using hrr⟩
       · simp [h3] at ho
 
-theorem foldM'_mono {f f' : Val → Val → Res} (hf : FnLe2 f f') : ∀ {vs vs' : List Val} {a a' : Val}, VLeS vs vs' → VLe a a' →
-    RLe (foldM' f a vs) (foldM' f' a' vs')
-  | [], vs', a, a', h, ha => by rw [VLeS_nil_left] at h; subst h; intro o ho; simp [foldM'] at ho; subst ho; exact ⟨a', rfl, ha⟩
-  | v :: vs, vs', a, a', h, ha => by
+theorem foldM'_mono {f f' : Val → Val → Res} (hf : FnLe2 f f') (hf' : FnLe2 f' f') : ∀ {vs vs' : List Val} {a a' : Val},
+    VLeS vs vs' → VLeS vs' vs' → VLe a a' → VLe a' a' → RLe (foldM' f a vs) (foldM' f' a' vs')
+  | [], vs', a, a', h, _, ha, _ => by rw [VLeS_nil_left] at h; subst h; intro o ho; simp [foldM'] at ho; subst ho; exact ⟨a', rfl, ha⟩
+  | v :: vs, vs', a, a', h, hw', ha, ha' => by
     rw [VLeS_cons_left] at h
     obtain ⟨b, bs, rfl, h1, h2⟩ := h
     simp only [foldM']
-    exact RLe.bind (hf a a' v b ha h1) (fun x x' hx => foldM'_mono hf h2 hx)
+    exact RLe.bind2 (hf a a' v b ha ha' h1 hw'.wf_head) (hf' a' a' b b ha' ha' hw'.wf_head hw'.wf_head)
+      (fun x x' hx hx' => foldM'_mono hf hf' h2 hw'.wf_tail hx hx')
 
-theorem mapRes_mono {f f' : Val → Res} (hf : FnLe f f') : ∀ {vs vs' : List Val}, VLeS vs vs' → RLeS (mapRes f vs) (mapRes f' vs')
-  | [], vs', h => by rw [VLeS_nil_left] at h; subst h; intro o ho; simp [mapRes] at ho; subst ho; exact ⟨[], rfl, by simp [VLeS]⟩
-  | v :: vs, vs', h => by
+theorem mapRes_mono {f f' : Val → Res} (hf : FnLe f f') : ∀ {vs vs' : List Val}, VLeS vs vs' → VLeS vs' vs' →
+    RLeS (mapRes f vs) (mapRes f' vs')
+  | [], vs', h, _ => by rw [VLeS_nil_left] at h; subst h; intro o ho; simp [mapRes] at ho; subst ho; exact ⟨[], rfl, by simp [VLeS]⟩
+  | v :: vs, vs', h, hw' => by
     rw [VLeS_cons_left] at h
     obtain ⟨b, bs, rfl, h1, h2⟩ := h
     intro out ho
@@ -289,11 +302,11 @@ theorem mapRes_mono {f f' : Val → Res} (hf : FnLe f f') : ∀ {vs vs' : List V
     cases hp : f v with
     | error e => simp [hp, bind, Except.bind] at ho
     | ok p =>
-      obtain ⟨p', hp', hpp⟩ := hf v b h1 p hp
+      obtain ⟨p', hp', hpp⟩ := hf v b h1 hw'.wf_head p hp
       cases hr : mapRes f vs with
       | error e => simp [hp, hr, bind, Except.bind] at ho
       | ok rest =>
-        obtain ⟨rest', hr', hrr⟩ := mapRes_mono hf h2 rest hr
+        obtain ⟨rest', hr', hrr⟩ := mapRes_mono hf h2 hw'.wf_tail rest hr
         simp only [hp, hp', hr, hr', bind, Except.bind, pure, Except.pure, Except.ok.injEq] at ho ⊢
         subst ho
         exact ⟨_, rfl, by simp only [VLeS]; exact ⟨hpp, hrr⟩⟩
@@ -313,10 +326,10 @@ theorem condsHold_mono : ∀ {rs rs' : List Res}, All2 RLe rs rs' → ∀ b, con
       · simp only [hb, if_true] at h ⊢; exact condsHold_mono h2 b h
       · simp only [hb, if_false] at h ⊢; exact h
 
-theorem filterMB_mono {p p' : Val → Except EErr Bool} (hp : ∀ v v', VLe v v' → ∀ b, p v = .ok b → p' v' = .ok b) :
-    ∀ {vs vs' : List Val}, VLeS vs vs' → RLeS (filterMB p vs) (filterMB p' vs')
-  | [], vs', h => by rw [VLeS_nil_left] at h; subst h; intro o ho; simp [filterMB] at ho; subst ho; exact ⟨[], rfl, by simp [VLeS]⟩
-  | v :: vs, vs', h => by
+theorem filterMB_mono {p p' : Val → Except EErr Bool} (hp : ∀ v v', VLe v v' → VLe v' v' → ∀ b, p v = .ok b → p' v' = .ok b) :
+    ∀ {vs vs' : List Val}, VLeS vs vs' → VLeS vs' vs' → RLeS (filterMB p vs) (filterMB p' vs')
+  | [], vs', h, _ => by rw [VLeS_nil_left] at h; subst h; intro o ho; simp [filterMB] at ho; subst ho; exact ⟨[], rfl, by simp [VLeS]⟩
+  | v :: vs, vs', h, hw' => by
     rw [VLeS_cons_left] at h
     obtain ⟨b, bs, rfl, h1, h2⟩ := h
     intro out ho
@@ -324,11 +337,11 @@ theorem filterMB_mono {p p' : Val → Except EErr Bool} (hp : ∀ v v', VLe v v'
     cases hq : p v with
     | error e => simp [hq, bind, Except.bind] at ho
     | ok q =>
-      have hq' := hp v b h1 q hq
+      have hq' := hp v b h1 hw'.wf_head q hq
       cases hr : filterMB p vs with
       | error e => simp [hq, hr, bind, Except.bind] at ho
       | ok rest =>
-        obtain ⟨rest', hr', hrr⟩ := filterMB_mono hp h2 rest hr
+        obtain ⟨rest', hr', hrr⟩ := filterMB_mono hp h2 hw'.wf_tail rest hr
         simp only [hq, hq', hr, hr', bind, Except.bind, pure, Except.pure, Except.ok.injEq] at ho ⊢
         subst ho
         cases q with
